@@ -305,18 +305,26 @@ Qed.
 Lemma rep_list_nonempty {A} n (l : list A) : (1 <= n)%nat -> l <> [] -> rep_list n l <> [].
 Proof. intros Hn Hl. destruct n; [lia|]. cbn [rep_list]. destruct l; [congruence|discriminate]. Qed.
 
+Lemma const_result v l q : Forall (is_constv v) l -> l <> [] -> (q == total l)%Q -> (0 < q)%Q ->
+  pequiv (wf_pieces (WConst (Qred q) v)) l /\ wf_ok1b (WConst (Qred q) v) = true.
+Proof.
+  intros HF Hne Hq Hpos. cbn [wf_pieces wf_ok1b]. split.
+  - apply pe_sym. apply merge_consts; auto. rewrite Qred_correct. exact Hq.
+  - apply okb_of_Qpos. rewrite Qred_correct. exact Hpos.
+Qed.
+
 Lemma frc_pequiv b n y : wf_ok1b b = true -> 1 <= n -> from_repetition_count b n = Ok y ->
   pequiv (wf_pieces y) (rep_list (Z.to_nat n) (wf_pieces b)) /\ wf_ok1b y = true.
 Proof.
   intros Hok Hn H. unfold from_repetition_count in H. destruct (cvd b) as [v|] eqn:Hc.
-  - inversion H; subst y; clear H. destruct (cvd_pieces b v Hc Hok) as (HF & Hne & Hpos).
+  - assert (y = WConst (Qred (wf_dur b * inject_Z n)) v) as -> by congruence. clear H.
+    destruct (cvd_pieces b v Hc Hok) as (HF & Hne & Hpos).
     assert (inject_Z 1 <= inject_Z n)%Q as Hq by (rewrite <- Zle_Qle; lia). change (inject_Z 1) with 1%Q in Hq.
-    cbn [wf_pieces wf_ok1b]. split.
-    + apply pe_sym. apply merge_consts.
-      * apply Forall_rep_list; auto.
-      * apply rep_list_nonempty; auto. lia.
-      * Show. rewrite Qred_correct. rewrite total_rep_list_Z by lia. rewrite (wf_ok1b_dur b Hok). reflexivity.
-    + apply okb_of_Qpos. rewrite Qred_correct. nra.
+    apply const_result.
+    + apply Forall_rep_list; auto.
+    + apply rep_list_nonempty; auto. lia.
+    + rewrite total_rep_list_Z by lia. rewrite (wf_ok1b_dur b Hok). reflexivity.
+    + nra.
   - destruct (n <? 1) eqn:E; [lia|]. inversion H; subst y. cbn [wf_pieces wf_ok1b]. split; [apply pequiv_refl|].
     rewrite Hok. cbn [andb]. lia.
 Qed.
@@ -365,6 +373,14 @@ Proof.
   - constructor; auto.
 Qed.
 
+Lemma dur_sum_pos ws : Forall (fun w => wf_pieces w <> [] /\ (0 < wf_dur w)%Q) ws -> ws <> [] ->
+  (0 < qsum (map wf_dur ws))%Q /\ flat_map wf_pieces ws <> [].
+Proof.
+  induction 1 as [|w l [Hne Hw] Hl IH]; intros Hn; [congruence|]. cbn [map flat_map]. rewrite qsum_cons. split.
+  - destruct l as [|w' l]; [cbn; lra|]. destruct (IH ltac:(discriminate)) as [IH1 _]. lra.
+  - destruct (wf_pieces w); [congruence|discriminate].
+Qed.
+
 Lemma fs_pequiv ws y : forallb wf_ok1b ws = true -> from_sequence ws = Ok y ->
   pequiv (wf_pieces y) (flat_map wf_pieces ws) /\ wf_ok1b y = true.
 Proof.
@@ -380,15 +396,12 @@ Proof.
   - remember (w0 :: w1 :: ws') as ws eqn:Ews.
     destruct (cvd w0) as [v|] eqn:Hc; [|inversion H; subst y; exact Hseq].
     destruct (all_const_equal v ws) eqn:Hall; [|inversion H; subst y; exact Hseq].
-    inversion H; subst y; clear H. destruct (all_const_pieces v ws Hall Hok) as [HF Hpos].
-    cbn [wf_pieces wf_ok1b]. split.
-    + apply pe_sym. apply merge_consts; auto.
-      * subst ws. inversion Hpos as [|? ? [Hne _] _]; subst. cbn [flat_map]. destruct (wf_pieces w0); [congruence|discriminate].
-      * rewrite Qred_correct, dur_seq_flatten. apply dur_list_total; auto.
-    + apply okb_of_Qpos. rewrite Qred_correct, dur_seq_flatten.
-      subst ws. inversion Hpos as [|? ? [_ Hp0] Hrest]; subst. cbn [map]. rewrite qsum_cons.
-      assert (0 <= qsum (map wf_dur (w1 :: ws')))%Q; [|lra].
-      clear -Hrest. induction Hrest as [|w l [_ Hw] _ IH]; cbn [map]; [cbn; lra|]. rewrite qsum_cons. lra.
+    assert (y = WConst (Qred (qsum (map wf_dur (seq_flatten ws)))) v) as -> by congruence. clear H.
+    destruct (all_const_pieces v ws Hall Hok) as [HF Hpos].
+    destruct (dur_sum_pos ws Hpos ltac:(subst ws; discriminate)) as [Hqpos Hne].
+    apply const_result; auto.
+    + rewrite dur_seq_flatten. apply dur_list_total; auto.
+    + rewrite dur_seq_flatten. exact Hqpos.
 Qed.
 
 Definition tw_go : list tree -> result (list wf) :=
@@ -407,6 +420,9 @@ Lemma to_waveform_inner rep w m c ch :
        (fun ws => bind (from_sequence ws) (fun sw => if 1 <? rep then from_repetition_count sw rep else Ok sw)).
 Proof. reflexivity. Qed.
 
+Lemma rep_list_1 {A} (l : list A) : rep_list (Z.to_nat 1) l = l.
+Proof. change (Z.to_nat 1) with 1%nat. cbn [rep_list]. apply app_nil_r. Qed.
+
 Theorem to_waveform_pequiv : forall t x, tree_ok1b t = true -> to_waveform t = Ok x ->
   pequiv (wf_pieces x) (pieces t) /\ wf_ok1b x = true.
 Proof.
@@ -415,7 +431,7 @@ Proof.
   destruct ch as [|c ch].
   - destruct (Hleaf eq_refl) as (x0 & -> & Hx0). cbn [to_waveform pieces] in *.
     destruct (rep =? 1) eqn:E.
-    + inversion H; subst x0. assert (rep = 1) as -> by lia. cbn. rewrite app_nil_r. split; [apply pequiv_refl|auto].
+    + inversion H; subst x0. assert (rep = 1) as -> by lia. rewrite rep_list_1. split; [apply pequiv_refl|auto].
     + apply frc_pequiv; auto.
   - rewrite to_waveform_inner in H. rewrite (Hw ltac:(discriminate)), pieces_node_none.
     remember (c :: ch) as l eqn:El. clear El Hleaf Hw Hok.
@@ -436,11 +452,470 @@ Proof.
     destruct (1 <? rep) eqn:E.
     + destruct (frc_pequiv sw rep x Ho' Hr H) as [Hp3 Ho3]. split; auto.
       eapply pe_trans; [exact Hp3|]. apply pequiv_rep_list; auto.
-    + inversion H; subst x. assert (rep = 1) as -> by lia. cbn. rewrite app_nil_r. auto.
+    + inversion H; subst x. assert (rep = 1) as -> by lia. rewrite rep_list_1. auto.
 Qed.
 
 Corollary to_waveform_duration : forall t x, tree_ok1b t = true -> to_waveform t = Ok x -> (wf_dur x == duration t)%Q.
 Proof.
   intros t x Hok H. destruct (to_waveform_pequiv t x Hok H) as [Hp Ho].
   rewrite (wf_ok1b_dur x Ho), (duration_total t (tree_ok1b_okb t Hok)). apply pequiv_total; auto.
+Qed.
+
+(* ------------------------------------------------------------------------------------------------------------------ *)
+(* C. make_compatible *)
+
+Definition mc_levels (min_len quantum : Z) (sr : Q) : list tree -> result (list comp_level) :=
+  fix levels (l : list tree) : result (list comp_level) :=
+    match l with
+    | [] => Ok []
+    | c :: r => bind (is_compatible min_len quantum sr c) (fun lv => bind (levels r) (fun ls => Ok (lv :: ls)))
+    end.
+
+Definition mc_go (min_len quantum : Z) (sr : Q) : list tree -> list comp_level -> result (list tree) :=
+  fix go (l : list tree) (ls : list comp_level) : result (list tree) :=
+    match l, ls with
+    | c :: r, lv :: lr =>
+        bind (if comp_level_eqb lv ActionRequired then make_compatible_rec min_len quantum sr c else Ok c)
+             (fun c' => bind (go r lr) (fun rs => Ok (c' :: rs)))
+    | _, _ => Ok []
+    end.
+
+Lemma mc_levels_cons ml q sr c r :
+  mc_levels ml q sr (c :: r) =
+  bind (is_compatible ml q sr c) (fun lv => bind (mc_levels ml q sr r) (fun ls => Ok (lv :: ls))).
+Proof. reflexivity. Qed.
+
+Lemma mc_go_cons ml q sr c r lv lr :
+  mc_go ml q sr (c :: r) (lv :: lr) =
+  bind (if comp_level_eqb lv ActionRequired then make_compatible_rec ml q sr c else Ok c)
+       (fun c' => bind (mc_go ml q sr r lr) (fun rs => Ok (c' :: rs))).
+Proof. reflexivity. Qed.
+
+Lemma mcr_leaf ml q sr rep w m :
+  make_compatible_rec ml q sr (Node rep w m []) =
+  bind (to_waveform (Node rep w m [])) (fun x => Ok (Node 1 (Some x) m [])).
+Proof. reflexivity. Qed.
+
+Lemma mcr_inner ml q sr rep w m c ch :
+  make_compatible_rec ml q sr (Node rep w m (c :: ch)) =
+  bind (mc_levels ml q sr (c :: ch))
+       (fun lvls =>
+          if existsb is_incompatible lvls then
+            if rep =? 0 then Err EZeroDiv
+            else
+              let single_run := (duration (Node rep w m (c :: ch)) * sr / inject_Z rep)%Q in
+              let keep := q_is_int (single_run / inject_Z q) && Qle_bool (inject_Z ml) single_run in
+              bind (to_waveform (Node (if keep then 1 else rep) w m (c :: ch)))
+                   (fun x => Ok (Node (if keep then rep else 1) (Some x) m []))
+          else bind (mc_go ml q sr (c :: ch) lvls) (fun ch' => Ok (Node rep w m ch'))).
+Proof. reflexivity. Qed.
+
+Lemma mc_levels_length ml q sr l : forall lvls, mc_levels ml q sr l = Ok lvls -> length lvls = length l.
+Proof.
+  induction l as [|c l IH]; intros lvls H.
+  - inversion H. reflexivity.
+  - rewrite mc_levels_cons in H. destruct (is_compatible ml q sr c); [|discriminate]. cbn [bind] in H.
+    destruct (mc_levels ml q sr l) as [ls|]; [|discriminate]. cbn [bind] in H. inversion H. cbn [length].
+    rewrite (IH ls eq_refl). reflexivity.
+Qed.
+
+Lemma pieces_leaf rep x m : pieces (Node rep (Some x) m []) = rep_list (Z.to_nat rep) (wf_pieces x).
+Proof. reflexivity. Qed.
+
+Lemma mcr_pequiv ml q sr : forall t t', tree_ok1b t = true -> make_compatible_rec ml q sr t = Ok t' ->
+  pequiv (pieces t') (pieces t) /\ tree_ok1b t' = true.
+Proof.
+  induction t as [rep w m ch IH] using tree_ind'. intros t' Hok H.
+  destruct (ok1b_inv _ _ _ _ Hok) as (Hr & Hch & Hleaf & Hw).
+  destruct ch as [|c ch].
+  - rewrite mcr_leaf in H. destruct (to_waveform (Node rep w m [])) as [x|] eqn:Hx; [|discriminate].
+    cbn [bind] in H. inversion H; subst t'. destruct (to_waveform_pequiv _ x Hok Hx) as [Hp Ho].
+    rewrite pieces_leaf, rep_list_1. split; auto; apply ok1b_intro_leaf; auto; lia.
+  - rewrite mcr_inner in H. rewrite (Hw ltac:(discriminate)) in *.
+    remember (c :: ch) as l eqn:El. assert (l <> []) as Hne by (subst l; discriminate). clear El Hleaf Hw c ch.
+    destruct (mc_levels ml q sr l) as [lvls|] eqn:Hlv; [|discriminate]. cbn [bind] in H.
+    apply mc_levels_length in Hlv.
+    destruct (existsb is_incompatible lvls).
+    + destruct (rep =? 0); [discriminate|]. cbv zeta in H.
+      destruct (q_is_int _ && Qle_bool _ _).
+      * destruct (to_waveform (Node 1 None m l)) as [x|] eqn:Hx; [|discriminate]. cbn [bind] in H.
+        inversion H; subst t'.
+        assert (tree_ok1b (Node 1 None m l) = true) as Hok1 by (apply ok1b_intro_none; auto; lia).
+        destruct (to_waveform_pequiv _ x Hok1 Hx) as [Hp Ho].
+        rewrite pieces_node_none, rep_list_1 in Hp. rewrite pieces_leaf, pieces_node_none. split.
+        -- apply pequiv_rep_list; auto.
+        -- apply ok1b_intro_leaf; auto.
+      * destruct (to_waveform (Node rep None m l)) as [x|] eqn:Hx; [|discriminate]. cbn [bind] in H.
+        inversion H; subst t'. destruct (to_waveform_pequiv _ x Hok Hx) as [Hp Ho].
+        rewrite pieces_leaf, rep_list_1. split; auto; apply ok1b_intro_leaf; auto; lia.
+    + assert (forall ls l', length ls = length l -> mc_go ml q sr l ls = Ok l' ->
+                            pequiv (flat_map pieces l') (flat_map pieces l) /\ forallb tree_ok1b l' = true /\
+                            length l' = length l) as Hgo.
+      { clear H Hne Hok Hlv. induction IH as [|a l Ha _ IHl]; intros ls l' Hlen H.
+        - assert (l' = []) as -> by (destruct ls; inversion H; reflexivity). repeat split; constructor.
+        - destruct ls as [|lv lr]; [discriminate|]. rewrite mc_go_cons in H. cbn [length] in Hlen.
+          cbn [forallb] in Hch. apply andb_true_iff in Hch. destruct Hch as [H1 H2].
+          assert (forall a', (if comp_level_eqb lv ActionRequired then make_compatible_rec ml q sr a else Ok a) = Ok a' ->
+                             pequiv (pieces a') (pieces a) /\ tree_ok1b a' = true) as Hstep.
+          { intros a' E. destruct (comp_level_eqb lv ActionRequired); [apply Ha; auto|].
+            inversion E; subst a'. split; [apply pequiv_refl|auto]. }
+          destruct (if comp_level_eqb lv ActionRequired then _ else _) as [a'|]; [|discriminate]. cbn [bind] in H.
+          destruct (mc_go ml q sr l lr) as [rs|] eqn:Hrs; [|discriminate]. cbn [bind] in H. inversion H; subst l'.
+          destruct (Hstep a' eq_refl) as [Hp Ho]. destruct (IHl H2 lr rs ltac:(lia) Hrs) as (Hp' & Ho' & Hl').
+          cbn [flat_map forallb length]. rewrite Ho, Ho', Hl'. repeat split; auto. apply pequiv_app; auto. }
+      destruct (mc_go ml q sr l lvls) as [l'|] eqn:Hl'; [|discriminate]. cbn [bind] in H. inversion H; subst t'.
+      destruct (Hgo lvls l' Hlv Hl') as (Hp & Ho & Hlen).
+      rewrite !pieces_node_none. split; [apply pequiv_rep_list; auto|].
+      apply ok1b_intro_none; auto. destruct l'; [destruct l; [congruence|discriminate]|discriminate].
+Qed.
+
+Theorem make_compatible_pequiv : forall min_len quantum sr t t', tree_ok1b t = true ->
+  make_compatible min_len quantum sr t = Ok t' -> pequiv (pieces t') (pieces t) /\ tree_ok1b t' = true.
+Proof.
+  intros ml q sr t t' Hok H. unfold make_compatible in H.
+  destruct (is_compatible ml q sr t) as [lv|]; [|discriminate]. cbn [bind] in H.
+  destruct lv; try discriminate.
+  - inversion H; subst t'. split; [apply pequiv_refl|auto].
+  - apply (mcr_pequiv ml q sr t t'); auto.
+Qed.
+
+(* ------------------------------------------------------------------------------------------------------------------ *)
+(* E. roll_constant_waveforms *)
+
+Lemma q_int_spec x : q_is_int x = true -> (x == inject_Z (q_int x))%Q.
+Proof.
+  unfold q_is_int, q_int. intros H. rewrite <- (Qred_correct x) at 1.
+  destruct (Qred x) as [n d]. cbn [Qnum Qden] in *. assert (d = 1%positive) as -> by lia. reflexivity.
+Qed.
+
+Lemma sfg_loop_spec : forall fuel n k, 0 < k -> k <= n ->
+  n mod (sfg_loop fuel n k) = 0 /\ 0 < sfg_loop fuel n k.
+Proof.
+  induction fuel as [|f IH]; intros n k Hk Hn; cbn [sfg_loop].
+  - split; [apply Z_mod_same_full|lia].
+  - destruct (n mod k =? 0) eqn:E; [split; lia|]. apply IH; [lia|].
+    assert (k <> n) by (intros ->; rewrite Z_mod_same_full in E; discriminate). lia.
+Qed.
+
+Lemma smallest_factor_ge_spec n m r : smallest_factor_ge n m = Ok r -> n mod r = 0 /\ 0 < r.
+Proof.
+  unfold smallest_factor_ge. destruct (m <=? 0) eqn:E1; [discriminate|]. destruct (n <? m) eqn:E2; [discriminate|].
+  intros H. inversion H. apply sfg_loop_spec; lia.
+Qed.
+
+Definition roll_go (mq q : Z) (sr : Q) : list tree -> result (list tree) :=
+  fix go (l : list tree) : result (list tree) :=
+    match l with
+    | [] => Ok []
+    | c :: r => bind (roll_constant_waveforms mq q sr c) (fun c' => bind (go r) (fun rs => Ok (c' :: rs)))
+    end.
+
+Lemma roll_go_cons mq q sr c r :
+  roll_go mq q sr (c :: r) =
+  bind (roll_constant_waveforms mq q sr c) (fun c' => bind (roll_go mq q sr r) (fun rs => Ok (c' :: rs))).
+Proof. reflexivity. Qed.
+
+Lemma roll_inner mq q sr rep w m c ch :
+  roll_constant_waveforms mq q sr (Node rep w m (c :: ch)) =
+  bind (roll_go mq q sr (c :: ch)) (fun ch' => Ok (Node rep w [] ch')).
+Proof. destruct w; reflexivity. Qed.
+
+Lemma roll_some mq q sr rep x m :
+  roll_constant_waveforms mq q sr (Node rep (Some x) m []) =
+  if q =? 0 then Err EZeroDiv
+  else
+    let wqq := (wf_dur x * sr / inject_Z q)%Q in
+    if negb (q_is_int wqq) then Ok (Node rep (Some x) [] [])
+    else
+      let wq := q_int wqq in
+      if wq <? mq * 2 then Ok (Node rep (Some x) [] [])
+      else match cvd x with
+           | None => Ok (Node rep (Some x) [] [])
+           | Some v =>
+               bind (smallest_factor_ge wq mq)
+                    (fun nq => if nq =? wq then Ok (Node rep (Some x) [] [])
+                               else Ok (Node (rep * (wq / nq))
+                                             (Some (WConst (Qred (inject_Z q * inject_Z nq / sr)) v)) [] []))
+           end.
+Proof. reflexivity. Qed.
+
+Lemma roll_leaf mq q sr rep x m t' : 0 < q -> (0 < sr)%Q -> 1 <= rep -> wf_ok1b x = true ->
+  roll_constant_waveforms mq q sr (Node rep (Some x) m []) = Ok t' ->
+  pequiv (pieces t') (pieces (Node rep (Some x) m [])) /\ tree_ok1b t' = true.
+Proof.
+  intros Hq Hsr Hrep Hx H. rewrite roll_some in H. cbv zeta in H.
+  assert (pequiv (pieces (Node rep (Some x) [] [])) (pieces (Node rep (Some x) m [])) /\
+          tree_ok1b (Node rep (Some x) [] []) = true) as Hsame.
+  { split; [rewrite !pieces_leaf; apply pequiv_refl|apply ok1b_intro_leaf; auto]. }
+  destruct (q =? 0) eqn:Eq0; [lia|].
+  set (wqq := (wf_dur x * sr / inject_Z q)%Q) in *.
+  destruct (q_is_int wqq) eqn:Hint; cbn [negb] in H; [|inversion H; subst; exact Hsame].
+  set (wq := q_int wqq) in *.
+  destruct (wq <? mq * 2) eqn:Ewq; [inversion H; subst; exact Hsame|].
+  destruct (cvd x) as [v|] eqn:Hc; [|inversion H; subst; exact Hsame].
+  destruct (smallest_factor_ge wq mq) as [nq|] eqn:Hnq; [|discriminate]. cbn [bind] in H.
+  destruct (nq =? wq) eqn:Enq; [inversion H; subst; exact Hsame|].
+  set (dq := Qred (inject_Z q * inject_Z nq / sr)) in *.
+  assert (t' = Node (rep * (wq / nq)) (Some (WConst dq v)) [] []) as -> by congruence. clear H.
+  (* arithmetic facts *)
+  assert (0 < mq) as Hmq by (unfold smallest_factor_ge in Hnq; destruct (mq <=? 0) eqn:E; [discriminate|lia]).
+  destruct (smallest_factor_ge_spec _ _ _ Hnq) as [Hdiv Hnqpos].
+  assert (wq = nq * (wq / nq)) as Hwq by (apply Z_div_exact_full_2; lia).
+  set (c := wq / nq) in *.
+  assert (1 <= c) as Hc1 by nia.
+  assert (0 < inject_Z q)%Q as HQ by (change 0%Q with (inject_Z 0); rewrite <- Zlt_Qlt; lia).
+  assert (0 < inject_Z nq)%Q as HN by (change 0%Q with (inject_Z 0); rewrite <- Zlt_Qlt; lia).
+  assert (dq == inject_Z q * inject_Z nq / sr)%Q as Hdq by (unfold dq; apply Qred_correct).
+  assert (0 < dq)%Q as Hdqpos.
+  { rewrite Hdq. apply Qlt_shift_div_l; auto. nra. }
+  assert (wf_dur x == inject_Z wq * inject_Z q / sr)%Q as Hdur.
+  { assert (wqq == inject_Z wq)%Q as Hs by (apply q_int_spec; auto). rewrite <- Hs. unfold wqq. field. split; lra. }
+  split.
+  2:{ apply ok1b_intro_leaf; [nia|]. cbn [wf_ok1b]. apply okb_of_Qpos; auto. }
+  rewrite !pieces_leaf. cbn [wf_pieces].
+  rewrite Z2Nat.inj_mul, rep_list_mul by lia. apply pequiv_rep_list.
+  destruct (cvd_pieces x v Hc Hx) as (HF & Hne & Hpos).
+  eapply pe_trans; [|apply pe_sym; apply (merge_consts v (wf_pieces x) HF Hne (wf_dur x)); apply wf_ok1b_dur; auto].
+  apply merge_consts.
+  - apply Forall_rep_list. constructor; [|constructor]. exists dq, v. repeat split; [lra|apply vals_eqb_refl].
+  - apply rep_list_nonempty; [lia|discriminate].
+  - rewrite total_rep_list_Z by lia. rewrite total_cons, total_nil. cbn [pdur].
+    rewrite Hdur, Hdq, Hwq, inject_Z_mult. field. lra.
+Qed.
+
+Lemma roll_both : forall mq q sr t t', (0 < q)%Z -> (0 < sr)%Q -> tree_ok1b t = true ->
+  roll_constant_waveforms mq q sr t = Ok t' -> pequiv (pieces t') (pieces t) /\ tree_ok1b t' = true.
+Proof.
+  intros mq q sr t t' Hq Hsr. revert t'. induction t as [rep w m ch IH] using tree_ind'. intros t' Hok H.
+  destruct (ok1b_inv _ _ _ _ Hok) as (Hr & Hch & Hleaf & Hw).
+  destruct ch as [|c ch].
+  - destruct (Hleaf eq_refl) as (x & -> & Hx). apply (roll_leaf mq q sr rep x m t'); auto.
+  - rewrite (Hw ltac:(discriminate)) in *. rewrite roll_inner in H.
+    remember (c :: ch) as l eqn:El. assert (l <> []) as Hne by (subst l; discriminate). clear El Hleaf Hw Hok c ch.
+    assert (forall l', roll_go mq q sr l = Ok l' ->
+                       pequiv (flat_map pieces l') (flat_map pieces l) /\ forallb tree_ok1b l' = true /\
+                       length l' = length l) as Hgo.
+    { clear H Hne. induction IH as [|a l Ha _ IHl]; intros l' H.
+      - inversion H. repeat split; constructor.
+      - rewrite roll_go_cons in H. cbn [forallb] in Hch. apply andb_true_iff in Hch. destruct Hch as [H1 H2].
+        destruct (roll_constant_waveforms mq q sr a) as [a'|] eqn:Ha'; [|discriminate]. cbn [bind] in H.
+        destruct (roll_go mq q sr l) as [rs|] eqn:Hrs; [|discriminate]. cbn [bind] in H. inversion H; subst l'.
+        destruct (Ha a' H1 eq_refl) as [Hp Ho]. destruct (IHl H2 rs eq_refl) as (Hp' & Ho' & Hl').
+        cbn [flat_map forallb length]. rewrite Ho, Ho', Hl'. repeat split; auto. apply pequiv_app; auto. }
+    destruct (roll_go mq q sr l) as [l'|] eqn:Hl'; [|discriminate]. cbn [bind] in H. inversion H; subst t'.
+    destruct (Hgo l' eq_refl) as (Hp & Ho & Hlen).
+    rewrite !pieces_node_none. split; [apply pequiv_rep_list; auto|].
+    apply ok1b_intro_none; auto. destruct l'; [destruct l; [congruence|discriminate]|discriminate].
+Qed.
+
+Theorem roll_pequiv : forall mq q sr t t', (0 < q)%Z -> (0 < sr)%Q -> tree_ok1b t = true ->
+  roll_constant_waveforms mq q sr t = Ok t' -> pequiv (pieces t') (pieces t).
+Proof. intros mq q sr t t' Hq Hsr Hok H. apply (roll_both mq q sr t t' Hq Hsr Hok H). Qed.
+
+Lemma roll_ok1 : forall mq q sr t t', (0 < q)%Z -> (0 < sr)%Q -> tree_ok1b t = true ->
+  roll_constant_waveforms mq q sr t = Ok t' -> tree_ok1b t' = true.
+Proof. intros mq q sr t t' Hq Hsr Hok H. apply (roll_both mq q sr t t' Hq Hsr Hok H). Qed.
+
+Corollary roll_duration : forall mq q sr t t', (0 < q)%Z -> (0 < sr)%Q -> tree_ok1b t = true ->
+  roll_constant_waveforms mq q sr t = Ok t' -> (duration t' == duration t)%Q.
+Proof.
+  intros mq q sr t t' Hq Hsr Hok H. destruct (roll_both mq q sr t t' Hq Hsr Hok H) as [Hp Ho].
+  rewrite (duration_total t (tree_ok1b_okb t Hok)), (duration_total t' (tree_ok1b_okb t' Ho)).
+  apply pequiv_total; auto.
+Qed.
+
+(* ------------------------------------------------------------------------------------------------------------------ *)
+(* D. postcondition of make_compatible *)
+
+Lemma Qred_inject_Z z : Qred (inject_Z z) = inject_Z z.
+Proof.
+  unfold inject_Z, Qred. pose proof (Z.ggcd_gcd z 1) as Hg. pose proof (Z.ggcd_correct_divisors z 1) as Hd.
+  destruct (Z.ggcd z 1) as [g [aa bb]]. cbn [fst snd] in *. rewrite Z.gcd_1_r in Hg. subst g. destruct Hd as [Ha Hb].
+  assert (aa = z) as -> by lia. assert (bb = 1) as -> by lia. reflexivity.
+Qed.
+
+Lemma q_int_of_eq x z : (x == inject_Z z)%Q -> q_is_int x = true /\ q_int x = z.
+Proof.
+  intros H. apply Qred_complete in H. rewrite Qred_inject_Z in H. unfold q_is_int, q_int. rewrite H.
+  cbn. split; reflexivity.
+Qed.
+
+Lemma q_int_Qeq x y : (x == y)%Q -> q_is_int x = q_is_int y /\ q_int x = q_int y.
+Proof. intros H. apply Qred_complete in H. unfold q_is_int, q_int. rewrite H. split; reflexivity. Qed.
+
+Lemma inject_Z_pos q : 0 < q -> (0 < inject_Z q)%Q.
+Proof. intros H. change 0%Q with (inject_Z 0). rewrite <- Zlt_Qlt. exact H. Qed.
+
+Lemma int_div q s : 0 < q -> q_is_int (s / inject_Z q) = true -> q_is_int s = true /\ q_int s mod q = 0.
+Proof.
+  intros Hq H. pose proof (inject_Z_pos q Hq) as HQ. pose proof (q_int_spec _ H) as Hs.
+  set (k := q_int (s / inject_Z q)) in *.
+  assert (s == inject_Z (k * q))%Q as Hs'.
+  { rewrite inject_Z_mult, <- Hs. field. lra. }
+  destruct (q_int_of_eq s (k * q) Hs') as [H1 H2]. split; auto. rewrite H2. apply Z_mod_mult.
+Qed.
+
+Lemma leaf_ok_of ml q sr x s : (wf_dur x * sr == s)%Q -> q_is_int s = true ->
+  Qle_bool (inject_Z ml) s = true -> q_int s mod q = 0 -> leaf_ok ml q sr x = true.
+Proof.
+  intros E H1 H2 H3. unfold leaf_ok. cbv zeta. destruct (q_int_Qeq _ _ E) as [E1 E2]. rewrite E1, E2, H1, H3.
+  cbn [andb]. rewrite andb_true_r. apply Qle_bool_iff in H2. rewrite (q_int_spec s H1) in H2.
+  rewrite <- Zle_Qle in H2. lia.
+Qed.
+
+Definition ic_go (ml q : Z) (sr : Q) : list tree -> result comp_level :=
+  fix go (l : list tree) : result comp_level :=
+    match l with
+    | [] => Ok Compatible
+    | c :: r => bind (is_compatible ml q sr c)
+                     (fun lv => if comp_level_eqb lv Compatible then go r else Ok ActionRequired)
+    end.
+
+Lemma ic_go_cons ml q sr c r :
+  ic_go ml q sr (c :: r) =
+  bind (is_compatible ml q sr c) (fun lv => if comp_level_eqb lv Compatible then ic_go ml q sr r else Ok ActionRequired).
+Proof. reflexivity. Qed.
+
+Lemma is_compatible_eq ml q sr t :
+  is_compatible ml q sr t =
+  let ds := (duration t * sr)%Q in
+  if negb (q_is_int ds) then Ok IncompFraction
+  else if Qle_bool (inject_Z ml) ds then
+         if q =? 0 then Err EZeroDiv
+         else if 0 <? (q_int ds) mod q then Ok IncompQuantum
+              else if is_leaf t then
+                     let wd := (body_duration t * sr)%Q in
+                     if negb (Qle_bool (inject_Z ml) wd) || negb (q_is_int (wd / inject_Z q)) then Ok ActionRequired
+                     else Ok Compatible
+                   else ic_go ml q sr (t_ch t)
+       else Ok IncompTooShort.
+Proof. destruct t as [r w m [|c ch]]; reflexivity. Qed.
+
+(* what every level other than the three incompatible ones guarantees about the whole duration *)
+Lemma ic_top ml q sr t lv : 0 < q -> is_compatible ml q sr t = Ok lv -> is_incompatible lv = false ->
+  q_is_int (duration t * sr) = true /\ Qle_bool (inject_Z ml) (duration t * sr) = true /\
+  q_int (duration t * sr) mod q = 0.
+Proof.
+  intros Hq H Hlv. rewrite is_compatible_eq in H. cbv zeta in H.
+  destruct (q_is_int (duration t * sr)); cbn [negb] in H; [|inversion H; subst lv; discriminate].
+  destruct (Qle_bool (inject_Z ml) (duration t * sr)); [|inversion H; subst lv; discriminate].
+  destruct (q =? 0) eqn:E0; [discriminate|].
+  destruct (0 <? q_int (duration t * sr) mod q) eqn:Em; [inversion H; subst lv; discriminate|].
+  repeat split. pose proof (Z.mod_pos_bound (q_int (duration t * sr)) q Hq). lia.
+Qed.
+
+Lemma leaf_whole_ok ml q sr t lv x : 0 < q -> is_compatible ml q sr t = Ok lv -> is_incompatible lv = false ->
+  (wf_dur x == duration t)%Q -> leaf_ok ml q sr x = true.
+Proof.
+  intros Hq H Hlv Hx. destruct (ic_top ml q sr t lv Hq H Hlv) as (H1 & H2 & H3).
+  apply (leaf_ok_of ml q sr x (duration t * sr)); auto. rewrite Hx. reflexivity.
+Qed.
+
+Lemma leaves_ok_leaf ml q sr rep x m : leaves_ok ml q sr (Node rep (Some x) m []) = leaf_ok ml q sr x.
+Proof. reflexivity. Qed.
+
+Lemma leaves_ok_inner ml q sr rep w m ch : ch <> [] ->
+  leaves_ok ml q sr (Node rep w m ch) = forallb (leaves_ok ml q sr) ch.
+Proof. destruct ch; [congruence|reflexivity]. Qed.
+
+Lemma compatible_leaves_ok ml q sr : 0 < q -> forall t, tree_ok1b t = true ->
+  is_compatible ml q sr t = Ok Compatible -> leaves_ok ml q sr t = true.
+Proof.
+  intros Hq. induction t as [rep w m ch IH] using tree_ind'. intros Hok H.
+  destruct (ok1b_inv _ _ _ _ Hok) as (Hr & Hch & Hleaf & Hw).
+  rewrite is_compatible_eq in H. cbv zeta in H.
+  destruct (q_is_int _); cbn [negb] in H; [|discriminate].
+  destruct (Qle_bool _ _); [|discriminate].
+  destruct (q =? 0); [discriminate|]. destruct (0 <? _); [discriminate|].
+  destruct ch as [|c ch].
+  - destruct (Hleaf eq_refl) as (x & -> & Hx). cbn [is_leaf t_ch body_duration] in H.
+    destruct (Qle_bool (inject_Z ml) (wf_dur x * sr)) eqn:E1; cbn [negb orb] in H; [|discriminate].
+    destruct (q_is_int (wf_dur x * sr / inject_Z q)) eqn:E2; cbn [negb] in H; [|discriminate].
+    rewrite leaves_ok_leaf. destruct (int_div q _ Hq E2) as [H1 H2].
+    apply (leaf_ok_of ml q sr x (wf_dur x * sr)); auto. reflexivity.
+  - rewrite leaves_ok_inner by discriminate. cbn [is_leaf t_ch] in H.
+    remember (c :: ch) as l eqn:El. clear El Hleaf Hw Hok c ch.
+    induction IH as [|a l Ha _ IHl]; [reflexivity|].
+    rewrite ic_go_cons in H. cbn [forallb] in Hch. apply andb_true_iff in Hch. destruct Hch as [H1 H2].
+    destruct (is_compatible ml q sr a) as [lv|] eqn:Hlv; [|discriminate]. cbn [bind] in H.
+    destruct lv; cbn [comp_level_eqb] in H; try discriminate.
+    cbn [forallb]. rewrite (Ha H1 eq_refl), (IHl H H2). reflexivity.
+Qed.
+
+Lemma mc_levels_spec ml q sr l : forall lvls, mc_levels ml q sr l = Ok lvls ->
+  Forall2 (fun c lv => is_compatible ml q sr c = Ok lv) l lvls.
+Proof.
+  induction l as [|c l IH]; intros lvls H.
+  - inversion H. constructor.
+  - rewrite mc_levels_cons in H. destruct (is_compatible ml q sr c) as [lv|] eqn:E; [|discriminate]. cbn [bind] in H.
+    destruct (mc_levels ml q sr l) as [ls|]; [|discriminate]. cbn [bind] in H. inversion H. constructor; auto.
+Qed.
+
+Lemma duration_node_none rep m l : l <> [] -> duration (Node rep None m l) = (qsum (map duration l) * inject_Z rep)%Q.
+Proof. destruct l; [congruence|reflexivity]. Qed.
+
+Lemma mcr_post ml q sr : 0 < q -> (0 < sr)%Q -> forall t t' lv, tree_ok1b t = true ->
+  is_compatible ml q sr t = Ok lv -> is_incompatible lv = false ->
+  make_compatible_rec ml q sr t = Ok t' -> leaves_ok ml q sr t' = true.
+Proof.
+  intros Hq Hsr. induction t as [rep w m ch IH] using tree_ind'. intros t' lv Hok Hic Hlv H.
+  destruct (ok1b_inv _ _ _ _ Hok) as (Hr & Hch & Hleaf & Hw).
+  destruct ch as [|c ch].
+  - rewrite mcr_leaf in H. destruct (to_waveform (Node rep w m [])) as [x|] eqn:Hx; [|discriminate].
+    cbn [bind] in H. inversion H; subst t'. rewrite leaves_ok_leaf.
+    eapply leaf_whole_ok; eauto. apply to_waveform_duration; auto.
+  - rewrite mcr_inner in H. rewrite (Hw ltac:(discriminate)) in *.
+    remember (c :: ch) as l eqn:El. assert (l <> []) as Hne by (subst l; discriminate). clear El Hleaf Hw c ch.
+    destruct (mc_levels ml q sr l) as [lvls|] eqn:Hlvls; [|discriminate]. cbn [bind] in H.
+    pose proof (mc_levels_length _ _ _ _ _ Hlvls) as Hlen. apply mc_levels_spec in Hlvls.
+    destruct (existsb is_incompatible lvls) eqn:Hex.
+    + destruct (rep =? 0); [discriminate|]. cbv zeta in H.
+      destruct (q_is_int _ && Qle_bool _ _) eqn:Hkeep.
+      * destruct (to_waveform (Node 1 None m l)) as [x|] eqn:Hx; [|discriminate]. cbn [bind] in H.
+        inversion H; subst t'. rewrite leaves_ok_leaf.
+        assert (tree_ok1b (Node 1 None m l) = true) as Hok1 by (apply ok1b_intro_none; auto; lia).
+        pose proof (to_waveform_duration _ x Hok1 Hx) as Hd.
+        apply andb_true_iff in Hkeep. destruct Hkeep as [K1 K2].
+        destruct (int_div q _ Hq K1) as [K3 K4].
+        apply (leaf_ok_of ml q sr x _ ) with (2 := K3); auto.
+        rewrite Hd, !duration_node_none by auto.
+        assert (0 < inject_Z rep)%Q by (apply inject_Z_pos; lia). change (inject_Z 1) with 1%Q. field. lra.
+      * destruct (to_waveform (Node rep None m l)) as [x|] eqn:Hx; [|discriminate]. cbn [bind] in H.
+        inversion H; subst t'. rewrite leaves_ok_leaf.
+        eapply leaf_whole_ok; eauto. apply to_waveform_duration; auto.
+    + destruct (mc_go ml q sr l lvls) as [l'|] eqn:Hl'; [|discriminate]. cbn [bind] in H. inversion H; subst t'.
+      assert (length l' = length l /\ forallb (leaves_ok ml q sr) l' = true) as [Hlen' Hall].
+      { clear H Hne Hok Hic Hlen. revert l' Hl'. induction Hlvls as [|a lv' l lvs Ha Hrest IHl]; intros l' Hl'.
+        - inversion Hl'. split; reflexivity.
+        - rewrite mc_go_cons in Hl'. cbn [forallb] in Hch. apply andb_true_iff in Hch. destruct Hch as [H1 H2].
+          cbn [existsb] in Hex. apply orb_false_iff in Hex. destruct Hex as [Hex1 Hex2].
+          inversion IH as [|? ? IHa IHrest]; subst.
+          assert (forall a', (if comp_level_eqb lv' ActionRequired then make_compatible_rec ml q sr a else Ok a) = Ok a' ->
+                             leaves_ok ml q sr a' = true) as Hstep.
+          { intros a' E. destruct lv'; cbn [comp_level_eqb is_incompatible] in *; try discriminate.
+            - inversion E; subst a'. apply compatible_leaves_ok; auto.
+            - eapply IHa; eauto. }
+          destruct (if comp_level_eqb lv' ActionRequired then _ else _) as [a'|]; [|discriminate]. cbn [bind] in Hl'.
+          destruct (mc_go ml q sr l lvs) as [rs|] eqn:Hrs; [|discriminate]. cbn [bind] in Hl'. inversion Hl'; subst l'.
+          destruct (IHl IHrest Hex2 H2 rs eq_refl) as [E1 E2]. cbn [length forallb].
+          rewrite (Hstep a' eq_refl), E1, E2. split; reflexivity. }
+      rewrite leaves_ok_inner; auto. destruct l'; [destruct l; [congruence|discriminate]|discriminate].
+Qed.
+
+Theorem make_compatible_post : forall min_len quantum sr t t', (0 < quantum)%Z -> (0 < sr)%Q ->
+  tree_ok1b t = true -> make_compatible min_len quantum sr t = Ok t' -> leaves_ok min_len quantum sr t' = true.
+Proof.
+  intros ml q sr t t' Hq Hsr Hok H. unfold make_compatible in H.
+  destruct (is_compatible ml q sr t) as [lv|] eqn:Hic; [|discriminate]. cbn [bind] in H.
+  destruct lv; try discriminate.
+  - inversion H; subst t'. apply compatible_leaves_ok; auto.
+  - eapply mcr_post; eauto; reflexivity.
+Qed.
+
+Corollary make_compatible_duration : forall min_len quantum sr t t', tree_ok1b t = true ->
+  make_compatible min_len quantum sr t = Ok t' -> (duration t' == duration t)%Q.
+Proof.
+  intros ml q sr t t' Hok H. destruct (make_compatible_pequiv ml q sr t t' Hok H) as [Hp Ho].
+  rewrite (duration_total t (tree_ok1b_okb t Hok)), (duration_total t' (tree_ok1b_okb t' Ho)).
+  apply pequiv_total; auto.
 Qed.
